@@ -24,6 +24,24 @@ pub fn rand_shape(r: &mut Rng, max_rank: usize, max_dim: usize) -> Vec<usize> {
     (0..rank).map(|_| r.range(1, max_dim)).collect()
 }
 
+/// A long dimension: mostly 9..40, sometimes a power of two or its neighbour (kernel block sizes), sometimes hundreds.
+pub fn long_dim(r: &mut Rng) -> usize {
+    match r.below(8) {
+        0 => r.range(100, 600),
+        1 => *r.pick(&[63, 64, 65, 127, 128, 129, 255, 256, 257]),
+        2 => *r.pick(&[5, 7, 11, 13, 17, 31, 61]),
+        _ => r.range(9, 40),
+    }
+}
+/// A shape of rank 5..6 with small dimensions and unit dimensions in the middle or at the end.
+pub fn high_rank_shape(r: &mut Rng) -> Vec<usize> {
+    let rank = r.range(5, 6);
+    let mut d: Vec<usize> = (0..rank).map(|_| r.range(1, 3)).collect();
+    let i = r.range(1, rank - 1);
+    d[i] = 1;
+    d
+}
+
 /// A broadcast partner of `full`: drop leading dims, replace a random subset of dims by 1.
 pub fn partner(r: &mut Rng, full: &[usize]) -> Vec<usize> {
     let rank = r.range(1, full.len());
